@@ -1,6 +1,6 @@
 """Per-property manifest texts."""
 
-HOOK_COMMITS = []
+HOOK_COMMITS = ["74aefc2", "366111c"]
 NOTES = "See DESIGN.md. exit 0 = held on everything explored, exit 1 = VIOLATION line, exit 2 = inconclusive (never a verdict)."
 DEFAULT_NA = "check under construction in this round (specification and harness for this property not yet committed); planned technique in DESIGN.md section 6"
 NOT_APPLICABLE = {}
@@ -13,6 +13,15 @@ _L_NOTE = ("bounds are the constants recorded in evidence coverage.plans (small-
            "CommunityModules Json reader, fake in-memory block store in place of kubo, libp2p secp256k1")
 _L_TECH = "TLA+ spec IpfsLog.tla/LogOps.tla model-checked by TLC; TLC-generated histories replayed on the real code; observed traces validated by TLC against Trace_IpfsLog.tla"
 
+_F_TEXT = ("TLC explores every interleaving of the fetcher's critical sections (main loop, sem.Acquire under the mutex, fetch completion, "
+           "locked result processing, cond wake-up, deadline) in Fetcher.tla for each loader instance over stored logs that IpfsLog.tla "
+           "histories produce on the real code; TLC-chosen schedules are imposed on the real fetcher (gated Dag().Get in the fake store + "
+           "verif-tagged yield hooks), every event emitted under the process mutex is validated as the model's step from the observed "
+           "pre-state (Layer M) and the outcome against the property (Layer P)")
+_F_NOTE = ("stored logs of 5-7 blocks with forks and skip references, concurrency 1-3 (32 for NewFromJSON, which ignores the option); "
+           "FetchDone/Process orders are forced, main-loop wake-ups are not controllable and run freely; fake store, TLC and the Json reader trusted")
+_F_TECH = "TLA+ spec Fetcher.tla/FetchOps.tla model-checked by TLC (safety + liveness); TLC schedules replayed on the real fetcher through a deterministic scheduler; observed traces validated by TLC against Trace_Fetcher.tla"
+
 CLAIMED = {
     "C01": dict(level="model_checking", text=_L_TEXT, note=_L_NOTE, technique=_L_TECH),
     "C02": dict(level="model_checking", text=_L_TEXT, note=_L_NOTE, technique=_L_TECH),
@@ -22,6 +31,9 @@ CLAIMED = {
     "C06": dict(level="model_checking",
                 text=_L_TEXT + "; an adversarial replica (Tamper action) replaces any entry it holds by an unsigned / mis-signed / keyless / wrong-key / payload-edited / foreign-id copy at every position (candidate or not), access controllers deny a writer or everybody, and the exploration is repeated for the default, link-encrypting and legacy protobuf codecs; ground truth about validity comes from the script, never from Verify",
                 note=_L_NOTE + "; a panic on a library goroutine (process crash) is reported as a violation with the crashing script isolated by re-running it alone", technique=_L_TECH),
+    "C09": dict(level="model_checking", text=_F_TEXT + "; unlimited reload through the manifest, the JSON head list, the head entries and (single-headed logs) the head hash, compared with the original replica (id, entries, heads, linearised values)", note=_F_NOTE, technique=_F_TECH),
+    "C10": dict(level="model_checking", text=_F_TEXT + "; every limit 0..size+1 for the four loaders; count and content (supplied entries plus the newest others) on every schedule", note=_F_NOTE, technique=_F_TECH),
+    "C11": dict(level="model_checking", text=_F_TEXT + "; every single faulty block x {missing, error, undecodable} (pairs in the thorough tier), a never-answering block with a deadline fired at a TLC-chosen point, excluded and duplicate starting hashes; termination is a liveness property of the model under weak fairness and 'the call returns once everything parked is released' on the real code; real-time runs with the loader's own Timeout option", note=_F_NOTE, technique=_F_TECH),
     "C15": dict(level="model_checking",
                 text=_L_TEXT + "; the Iterator option space of the property's quantifier (0-2 inclusive upper bounds related or not, one exclusive, unknown ones, every lower bound in range, every amount 0..size+1) is enumerated by TLC per reachable log",
                 note=_L_NOTE, technique=_L_TECH),
